@@ -299,6 +299,18 @@ type scriptErr struct{ code int }
 
 func (e *scriptErr) Error() string { return fmt.Sprintf("scripted error %d", e.code) }
 
+// Unwrap makes some scripted errors wrap a context error (errors.Is(err, context.Canceled) holds for them although
+// they did not come from any context of the scenario): the library must report such an error like any other.
+func (e *scriptErr) Unwrap() error {
+	switch e.code % 3 {
+	case 0:
+		return context.Canceled
+	case 1:
+		return context.DeadlineExceeded
+	}
+	return nil
+}
+
 var errKilled = errors.New("harness: source killed during clean-up")
 
 // gatedSource is a scripted input of stream.Merge. Every Next call needs one token from the controller
